@@ -4,8 +4,10 @@ import (
 	"encoding/json"
 	"fmt"
 	"os"
+	"os/exec"
 	"path/filepath"
 	"runtime"
+	"strings"
 	"sync"
 	"testing"
 
@@ -228,4 +230,85 @@ func TestC11(t *testing.T) {
 		ww := w
 		col.Case(fmt.Sprint(*w), w.Sharers >= 2 || len(w.Own) >= 2, func() interface{} { return ww })
 	})
+}
+
+// ---- cold start: the very first evaluators of a process are created concurrently ----
+
+// TestC11ColdWorker is run in a fresh process: nothing has touched the
+// library yet when the goroutines start.
+func TestC11ColdWorker(t *testing.T) {
+	if os.Getenv("VERIF_C11_COLD") == "" {
+		t.Skip("worker only")
+	}
+	n := 32
+	var wg sync.WaitGroup
+	start := make(chan struct{})
+	errs := make(chan error, n)
+	for g := 0; g < n; g++ {
+		wg.Add(1)
+		go func(g int) {
+			defer wg.Done()
+			<-start
+			e := evalfilter.New(ownScripts[g%len(ownScripts)])
+			if err := e.Prepare(); err != nil {
+				errs <- fmt.Errorf("goroutine %d: Prepare: %v", g, err)
+				return
+			}
+			for k := 0; k < 5; k++ {
+				if _, err := e.Execute(personFor(g + k)); err != nil {
+					errs <- fmt.Errorf("goroutine %d: %v", g, err)
+					return
+				}
+			}
+		}(g)
+	}
+	close(start)
+	wg.Wait()
+	close(errs)
+	for err := range errs {
+		t.Fatalf("cold start: %v", err)
+	}
+}
+
+func runColdStart(children int) error {
+	for i := 0; i < children; i++ {
+		cmd := exec.Command(os.Args[0], "-test.run", "^TestC11ColdWorker$", "-test.timeout", "120s")
+		cmd.Env = append(os.Environ(), "VERIF_C11_COLD=1", "GORACE=halt_on_error=1")
+		out, err := cmd.CombinedOutput()
+		if err != nil {
+			text := string(out)
+			for _, marker := range []string{"WARNING: DATA RACE", "fatal error:", "cold start:"} {
+				if idx := strings.Index(text, marker); idx >= 0 {
+					return fmt.Errorf("process %d whose first action is 32 goroutines creating, preparing and running private evaluators: %s", i, clip(text[idx:], 900))
+				}
+			}
+			return fmt.Errorf("INFRA: cold-start child failed without a recognisable report: %v %s", err, clip(text, 300))
+		}
+	}
+	return nil
+}
+
+func TestC11ColdStart(t *testing.T) {
+	defer silenceAs("coldstart")()
+	col := evid.New("C11", "coldstart", "")
+	defer col.Flush()
+	children := scale(8, 80)
+	w := &Workload{Prop: "C11", Kind: "coldstart", Own: ownScripts, OwnRuns: 5}
+	if err := runColdStart(children); err != nil {
+		if strings.HasPrefix(err.Error(), "INFRA") {
+			t.Fatalf("%v", err)
+		}
+		w.Msg = err.Error()
+		violation(t, "C11", w, "%v", err)
+	}
+	for i := 0; i < children; i++ {
+		ii := i
+		col.Case(fmt.Sprint("cold", i), true, func() interface{} {
+			return map[string]interface{}{"fresh_process": ii, "goroutines": 32, "each": "New + Prepare + 5 x Execute on a private evaluator"}
+		})
+	}
+}
+
+func init() {
+	replayers["C11/coldstart"] = func(raw []byte) error { return runColdStart(30) }
 }
